@@ -230,7 +230,13 @@ auto excluded_c(int f, T x, T y) -> bool
     case F_TAN: return hit("C16.sinh.gcem", cls_sinh(y, is32));
     case F_TANH: return hit("C16.sinh.gcem", cls_sinh(x, is32));
     case F_LOG:
-    case F_LOG10: return hit("C16.atan2.gcem", cls_atan2(y, x, is32)) || hit("C16.sqrt.gcem", cls_hypot<T>(x, y, T(0)));
+    case F_LOG10: {
+        // log(z) = (log|z|, arg z): next to z = 1 both parts are tiny and log(abs(z)) keeps only the absolute accuracy of
+        // abs(z) (about one ulp of 1) -> norm-wise relative error >= 1e-3.  Inherent to the formula (glibc uses log1p).
+        long double const dx = static_cast<long double>(x) - 1, dy = y;
+        bool const near_one  = ::sqrtl(dx * dx + dy * dy) < (is32 ? 0x1p-7L : 0x1p-36L);
+        return hit("C16.complex.log.near_one", near_one) || hit("C16.atan2.gcem", cls_atan2(y, x, is32)) || hit("C16.sqrt.gcem", cls_hypot<T>(x, y, T(0)));
+    }
     case F_ABS: return hit("C16.sqrt.gcem", cls_hypot<T>(x, y, T(0)));
     case F_ARG: return hit("C16.atan2.gcem", cls_atan2(y, x, is32));
     default: return false;
@@ -334,7 +340,7 @@ void run_complex(vf::Ctx& c, vf::Rng& rng)
             T v = static_cast<T>(::ldexp(1.0 + static_cast<double>(rng.next() >> 12) / 4503599627370496.0, static_cast<int>(rng.range(-20, 2))));
             return rng.below(2) != 0 ? -v : v;
         };
-        switch (i % 3) {
+        switch (i % 6) {
         case 0:
             x = lin();
             y = lin();
@@ -343,11 +349,39 @@ void run_complex(vf::Ctx& c, vf::Rng& rng)
             x = lg();
             y = lg();
             break;
-        default:
+        case 2:
             x = lin();
             y = lg();
             if (rng.below(2) != 0) { std::swap(x, y); }
             break;
+        case 3: { // one component next to a multiple of pi/2 (a zero of sin or cos), the other one small: the result is
+                  // small in BOTH parts, so the relative error of sinh/sin of the small component is fully visible
+            int const kk = static_cast<int>(rng.range(-5, 5));
+            x            = static_cast<T>(static_cast<double>(kk) * 1.5707963267948966);
+            x            = from_bits<T>(static_cast<typename BitsOf<T>::type>(bits(x) + static_cast<typename BitsOf<T>::type>(rng.range(-3, 3))));
+            int const lo = sizeof(T) == 4 ? -16 : -45;
+            y            = static_cast<T>(::ldexp(1.0 + static_cast<double>(rng.next() >> 12) / 4503599627370496.0, static_cast<int>(rng.range(lo, 0))));
+            if (rng.below(2) != 0) { y = -y; }
+            if (rng.below(2) != 0) { std::swap(x, y); }
+            break;
+        }
+        case 4: { // |z|^2 around epsilon (the square root of a sum of squares that is barely "distinguishable from zero")
+            int const e0 = sizeof(T) == 4 ? -12 : -26;
+            x            = static_cast<T>(::ldexp(1.0 + static_cast<double>(rng.next() >> 12) / 4503599627370496.0, e0 + static_cast<int>(rng.range(-2, 4))));
+            y            = static_cast<T>(::ldexp(1.0 + static_cast<double>(rng.next() >> 12) / 4503599627370496.0, e0 + static_cast<int>(rng.range(-8, 4))));
+            if (rng.below(2) != 0) { x = -x; }
+            if (rng.below(2) != 0) { y = -y; }
+            if (rng.below(2) != 0) { std::swap(x, y); }
+            break;
+        }
+        default: { // rings around z = 1 (log z -> 0): radius 2^-j
+            int const jmax = sizeof(T) == 4 ? 12 : 42;
+            double const r = ::ldexp(1.0 + static_cast<double>(rng.next() >> 12) / 4503599627370496.0, -static_cast<int>(rng.range(1, jmax)));
+            double const th = (static_cast<double>(rng.next() >> 11) / 9007199254740992.0) * 6.283185307179586;
+            x              = static_cast<T>(1.0 + r * ::cos(th));
+            y              = static_cast<T>(r * ::sin(th));
+            break;
+        }
         }
         all(x, y);
     }
